@@ -1546,6 +1546,28 @@ example : phase (run {} [.localStart 1]) 1 = 1 ∧ phase (run {} [.localStart 1,
     phase (run {} [.localStart 1, .thread 0, .thread 0, .done 1]) 1 = 3 ∧
     phase (run {} [.localStart 1, .thread 0, .thread 0, .arrive 2 5, .thread 1, .thread 1, .thread 1, .ctorFail 1 false]) 2 = 3 := by decide
 
+/-- **the set of finished tokens only grows** — along any schedule, from any state, whatever else starts and finishes
+meanwhile and however many: a done mark is never dropped (neither with the released tree — seeded C11r3-A —, nor because
+many other instances finished since — seeded C11r7-B bounded the list at 1024) -/
+theorem c11_done_for_ever (as : List Act) (s : St) (tok : Nat) (hd : tok ∈ s.doneToks) : tok ∈ (run s as).doneToks := by
+  induction as generalizing s with
+  | nil => exact hd
+  | cons a as ih =>
+    simp only [run]
+    cases h : step s a with
+    | none => exact ih s hd
+    | some s' => exact ih s' (c11_done_monotone s s' a tok h hd)
+
+/-- and so a late message is dropped after any amount of other activity: the `transmitMux` region of a message whose
+token finished at some point in the past finds the mark -/
+theorem c11_late_dropped_after_anything (as : List Act) (s : St) (tok : Nat) (hd : tok ∈ s.doneToks) (i : Nat) (t : Th)
+    (ht : (run s as).thr[i]? = some t) (hpc : t.pc = .found) (htok : t.tok = tok) (s' : St)
+    (hs : step (run s as) (.thread i) = some s') :
+    s'.live = (run s as).live ∧ s'.constructed = (run s as).constructed ∧ s'.handed = (run s as).handed :=
+  let h := c11_late_dropped (run s as) s' i t ht hpc (by rw [htok]; exact c11_done_for_ever as s tok hd) hs
+  ⟨h.1, h.2.1, h.2.2.1⟩
+
+
 namespace Store
 open C11.Store
 
